@@ -59,6 +59,14 @@ def fam_res(E, nb, supply_kind, fault_kinds, claims=True, mods=(NOMOD,), nested=
         # happened to its first use (pseudo borrower nb in the ledger)
         phase.append('none')
         amt.append(amt[0])
+    if reuse == 'wait':
+        # ... and this second use has to wait (a blocker takes everything there is at 100) and
+        # is itself faulted at (c2, p2) while it waits / acquires / holds (pseudo borrower nb+1
+        # is the blocker)
+        phase.append('none')
+        amt.append({n: 0 for n in names})
+        fault2 = Fault(E, 'g', [Fault.CANCEL, Fault.INTERRUPT, Fault.CLOSE], lo=100, hi=125,
+                       pmax=2, real=real, placements=False)
 
     def level(n):
         return getattr(sup.levels, n)
@@ -136,6 +144,38 @@ def fam_res(E, nb, supply_kind, fault_kinds, claims=True, mods=(NOMOD,), nested=
         phase[nb] = 'none'
         log('R', 'left')
 
+    async def blocker():
+        await (time + 100)
+        amt[nb + 1] = {n: level(n) for n in names}
+        phase[nb + 1] = 'acq'
+        async with sup.borrow(**amt[nb + 1]):
+            phase[nb + 1] = 'held'
+            await (time + 20)
+            phase[nb + 1] = 'rel'
+        phase[nb + 1] = 'none'
+
+    async def reuser_wait():
+        await (time + 101)
+        ctx = S.get('ctx0')
+        if ctx is None or phase[0] in ('acq', 'held', 'rel'):
+            return        # never created, or its first use is still going on
+        log('R', 'again')
+        phase[nb] = 'acq'
+        try:
+            async with ctx:
+                try:
+                    phase[nb] = 'held'
+                    log('R', 'enter')
+                    await (time + 1)
+                finally:
+                    phase[nb] = 'rel'
+            phase[nb] = 'none'
+        except BaseException:
+            phase[nb] = ('limbo', now())
+            log('R', 'left-by-fault')
+            raise
+        log('R', 'left')
+
     async def modifier():
         await (time + md)
         if mod == INCREASE:
@@ -162,7 +202,10 @@ def fam_res(E, nb, supply_kind, fault_kinds, claims=True, mods=(NOMOD,), nested=
                     top.do(fn())
             if mod != NOMOD:
                 top.do(modifier())
-            if reuse:
+            if reuse == 'wait':
+                top.do(blocker())
+                fault2.spawn(top, reuser_wait, log)
+            elif reuse:
                 top.do(reuser())
 
     def in_limbo(ph, t):
@@ -196,7 +239,12 @@ def fam_res(E, nb, supply_kind, fault_kinds, claims=True, mods=(NOMOD,), nested=
     if out.exc is not None:
         return
     E.reach(Fault.NAMES[fault.kind])
-    if reuse and log.has('R', 'enter'):
+    if reuse == 'wait':
+        again, fl, en = log.first('R', 'again'), log.first('g', 'fault'), log.first('R', 'enter')
+        if again is not None and fl is not None and log.pos(again) < log.pos(fl) and \
+                (en is None or log.pos(fl) < log.pos(en)) and log.has('R', 'left-by-fault'):
+            E.reach('second-use-faulted-before-it-was-served')
+    elif reuse and log.has('R', 'enter'):
         E.reach('reused')
         E.prove(log.has('R', 'left'), 'reused-borrow-completes')
     # quiescence: everything is back, unless a borrower waits forever for more than exists
@@ -290,6 +338,14 @@ FAMILIES = [
            reach=['reused', 'cancel', 'interrupt', 'close', 'fault-while-acquiring'],
            bounds='the borrow object of borrower 0 is entered a second time at 100, after its '
                   'first use completed or was faulted at (c,p)'),
+    Family('reuse_wait', fam_res,
+           quick=dict(nb=1, supply_kind='resources', fault_kinds=[Fault.NONE, Fault.CANCEL,
+                      Fault.CLOSE], claims=False, pmax=3, placements=False, reuse='wait'),
+           thorough=dict(nb=1, supply_kind='resources', fault_kinds=ALLF, claims=False, pmax=5,
+                         reuse='wait'),
+           reach=['cancel', 'close', 'second-use-faulted-before-it-was-served'],
+           bounds='as reuse, but the second use has to wait for a blocker that took everything, '
+                  'and is cancelled / interrupted / closed at a second symbolic instant'),
     Family('res_fault_real', fam_res,
            thorough=dict(nb=2, supply_kind='resources', fault_kinds=[Fault.NONE, Fault.CANCEL],
                          claims=False, real=True, pmax=4, placements=False),
